@@ -1,4 +1,4 @@
-import OdxVerif.Proofs.CompKeyMsg
+import OdxVerif.Proofs.CompKeyNest
 /-! # C01, LENGTH-KEY tier — the round trip through the TWO-PASS encoder
     (LENGTH-KEY parameters + PARAM-LENGTH-INFO-TYPE objects).  (Separate file; imported nowhere.) -/
 namespace OdxVerif.Codec
@@ -13,16 +13,19 @@ open OdxVerif.Bits OdxVerif.OdxM
    with the bit lengths).  Still missing relative to the full statement (for this construct): keys behind a compu method
    other than IDENTICAL or with a signed / BCD coded type, PARAM-LENGTH-INFO-TYPE objects of ZERO bits of a numeric type
    (A_UINT32 value 0 with the key omitted; the empty byte field / string is covered), users that refer to a key of an
-   ENCLOSING structure and a structure with keys as a component of an outer list (the dictionaries are global to the PDU in
-   the model as in odxtools; `Comp.Ok` quantifies over all encoder states, a key structure needs a state whose `length_keys`
-   does not know its keys yet), and "consumes the whole PDU".                                                          -/
+   ENCLOSING structure, key structures as items of fields (the dictionaries are global to the PDU in the model as in
+   odxtools: every item would have to carry the same lengths), key structures with BYTE-SIZE, and "consumes the whole PDU". -/
 
 /-- **C01, LENGTH-KEY tier.**  A request / response / structure whose parameters `its` are, in any order,
-    * **components** (`KItem.comp g`, `g.Ok ∧ g.EndOk` — everything `C01_roundtrip_nested` covers: leaves, structures, fields,
-      multiplexers in any nesting) that neither read nor write the key dictionaries (`g.KeyFree`; by
+    * **components** (`KItem.comp g touched` with `g.KOk W touched`, `Proofs/CompKeyItems.lean`), of two kinds:
+      (a) `Comp.KOk.ofKeyFree`: every `g.Ok ∧ g.EndOk` component — everything `C01_roundtrip_nested` covers: leaves, structures,
+      fields, multiplexers in any nesting — that neither reads nor writes the key dictionaries (`g.KeyFree`; by
       `Comp.keyFree_of_noKeys` this follows from the decidable syntactic check `g.param.noKeys = true`: no LENGTH-KEY
       parameter and no PARAM-LENGTH-INFO-TYPE diag-coded type anywhere inside — `encKeeps` / `decKeeps`: on such a
-      description NO function of the model touches the dictionaries);
+      description NO function of the model touches the dictionaries); `touched = []`;
+      (b) `Comp.kstruct_kok`: a VALUE parameter typed by a STRUCTURE whose parameters are again such items with LENGTH-KEYs of
+      their own (`Comp.kstruct name bp its'`, satisfying the hypotheses of this theorem for the same `W`) — to any depth;
+      `touched` = the key names inside;
     * **LENGTH-KEY parameters** (`KItem.key o v supplied`) over an `A_UINT32` standard-length DOP of 1 … 64 bits with the
       identical compu method, at ANY byte position (explicit or behind its predecessor) and ANY bit position, either byte
       order; `v` is the key's final value, which the key can represent (`o.inRange (.int v)`: `0 ≤ v < 2^BIT-LENGTH` —
@@ -39,7 +42,10 @@ open OdxVerif.Bits OdxVerif.OdxM
     key's value `W key` is the user's bit length (several users may share a key: they then have equal lengths); an object
     user whose size is not what the encoder would derive from its value (`plDerived`: a 16-bit A_UINT32 holding 5) refers to
     a key that is known when the encoder reaches it (specified, or derived for an earlier user); an omitted key is referred
-    to by some user (`covered`); sibling names are distinct.
+    to by some user (`covered`); sibling names are distinct; no LATER parameter touches the recorded position of a key
+    (`apart`: the key names inside a later nested key structure differ from it — `length_keys` / `key_pos` are global to the
+    PDU and keyed by short name, in the model as in odxtools; for the same reason `W` is ONE assignment for all levels: a key
+    name that occurs at two levels stands for the same bit length).
     The first encoding loop writes a placeholder for each key — it claims NO bit —, the users claim theirs, the second loop
     writes each key's value into the bits nobody claimed.  If strict `encode` of the supplied dictionary (the users' values,
     the keys only if `supplied`) returns a PDU without an overlap warning, strict `decode` of that PDU returns the
@@ -181,6 +187,80 @@ example : ∃ cursor, decodeMessage none (Comps.toParams (KItems.comps (exKeyIte
   C01_roundtrip_lengthkey exW (exKeyItems true) (exKeyItems_ok true) (by decide) (exKeyItems_side true).1
     (exKeyItems_side true).2.1 (exKeyItems_side true).2.2.2.2 (exKeyItems_side true).2.2.1 (exKeyItems_side true).2.2.2.1 none _
     (fun h => by cases h)
+    (Except.eq_ok_of_toOption' (by decide +kernel))
+
+/-! ### non-vacuity, nested: a structure with a LENGTH-KEY of its own as a parameter of a request with another one
+    request = [ sid (0x2E, omitted);  k1 : LENGTH-KEY 8 bits, omitted;
+                st : STRUCTURE { k2 : LENGTH-KEY 8 bits, omitted;  data : PARAM-LENGTH-INFO-TYPE A_BYTEFIELD with key k2, 3 bytes };
+                d1 : PARAM-LENGTH-INFO-TYPE A_BYTEFIELD with key k1, 2 bytes;  y : 8 bits ]
+    Both passes of `st` run inside the first pass of the request; the request's second pass then writes `k1`. -/
+def exK1 : Obj := ⟨"k1", none, none, none, true, 8, .uint32⟩
+def exK2 : Obj := ⟨"k2", none, none, none, true, 8, .uint32⟩
+def exInnerUser : PLUser := { name := "data", bytePos := none, key := "k2", bt := .bytefield, hl := true, v := .bytes [1, 2, 3], raw := [1, 2, 3] }
+def exOuterUser : PLUser := { name := "d1", bytePos := none, key := "k1", bt := .bytefield, hl := true, v := .bytes [0xAA, 0xBB], raw := [0xAA, 0xBB] }
+def exInner : List KItem := [.key exK2 24 false, .user exInnerUser]
+def exNestItems : List KItem :=
+  [.comp (Comp.ofObjConst ⟨"sid", none, none, none, true, 8, .uint32⟩ (.int 0x2E) false) [],
+   .key exK1 16 false, .comp (Comp.kstruct "st" none exInner) (KItems.touched exInner), .user exOuterUser,
+   .comp (Comp.ofObjValue ⟨"y", none, none, none, true, 8, .uint32⟩ (.int 0x77)) []]
+def exNestW : String → Option Int := fun n => if n = "k1" then some 16 else if n = "k2" then some 24 else none
+def exNestPdu : Bytes := [0x2E, 0x10, 0x18, 0x01, 0x02, 0x03, 0xAA, 0xBB, 0x77]
+
+example : Comps.values (KItems.comps exNestItems) =
+    [("st", .dict [("data", .atom (.bytes [1, 2, 3]))]), ("d1", .atom (.bytes [0xAA, 0xBB])), ("y", .atom (.int 0x77))] := rfl
+example : (Comps.pair (KItems.comps exNestItems)).val =
+    [("sid", .atom (.int 0x2E)), ("k1", .atom (.int 16)), ("st", .dict [("k2", .atom (.int 24)), ("data", .atom (.bytes [1, 2, 3]))]),
+     ("d1", .atom (.bytes [0xAA, 0xBB])), ("y", .atom (.int 0x77))] := rfl
+/-- the PDU (odxtools produces the same bytes) -/
+example : (encodeMessage none (Comps.toParams (KItems.comps exNestItems))
+      (.dict (Comps.values (KItems.comps exNestItems))) none true).toOption = some (exNestPdu, 0) := by decide +kernel
+
+theorem exInner_ok : (∀ it ∈ exInner, it.ok exNestW) ∧ Comps.eopLast (KItems.comps exInner) ∧ Comps.namesOk (KItems.comps exInner) ∧
+    KItems.apart exInner ∧ KItems.refsOk exNestW [] [] exInner ∧ KItems.covered exInner := by
+  refine ⟨?_, ⟨rfl, trivial⟩, ?_, ?_, ⟨rfl, by simp [exInnerUser, exK2], rfl, trivial⟩, ?_⟩
+  · intro it hit
+    simp only [exInner, List.mem_cons, List.mem_nil_iff, or_false] at hit
+    rcases hit with rfl | rfl
+    · exact ⟨⟨rfl, by simp [exK2, Obj.ok, Obj.encOk, Obj.sizeOk]⟩, by simp [exK2, Obj.inRange]⟩
+    · exact ⟨⟨allBytes_of_all _ (by decide), Or.inl ⟨rfl, rfl, Or.inl rfl⟩⟩, rfl⟩
+  · simp [Comps.namesOk, KItems.comps, exInner, KItem.toComp, Comp.name, Param.name, Obj.toKeyParam, PLUser.toParam, exK2, exInnerUser]
+  · simp [KItems.apart, exInner, KItem.touches]
+  · intro o v hm
+    simp only [exInner, List.mem_cons, List.mem_nil_iff, or_false, reduceCtorEq, KItem.key.injEq] at hm
+    obtain ⟨rfl, _, _⟩ := hm
+    exact ⟨.user exInnerUser, by simp [exInner], _, rfl⟩
+
+theorem exNestItems_ok : ∀ it ∈ exNestItems, it.ok exNestW := by
+  intro it hit
+  simp only [exNestItems, List.mem_cons, List.mem_nil_iff, or_false] at hit
+  rcases hit with rfl | rfl | rfl | rfl | rfl
+  · have ho : (⟨"sid", none, none, none, true, 8, .uint32⟩ : Obj).ok := by simp [Obj.ok, Obj.encOk, Obj.sizeOk]
+    have hr : (⟨"sid", none, none, none, true, 8, .uint32⟩ : Obj).inRange (.int 0x2E) := by simp [Obj.inRange]
+    exact Comp.KOk.ofKeyFree _ _ (Comp.ofObjConst_ok _ _ _ ho hr) (Comp.ofObjConst_endOk _ _ _) (Comp.ofObjConst_keyFree _ _ _ ho hr)
+  · exact ⟨⟨rfl, by simp [exK1, Obj.ok, Obj.encOk, Obj.sizeOk]⟩, by simp [exK1, Obj.inRange]⟩
+  · exact Comp.kstruct_kok "st" none exInner exInner_ok.1 exInner_ok.2.1 exInner_ok.2.2.1 exInner_ok.2.2.2.1 exInner_ok.2.2.2.2.1
+      exInner_ok.2.2.2.2.2
+  · exact ⟨⟨allBytes_of_all _ (by decide), Or.inl ⟨rfl, rfl, Or.inl rfl⟩⟩, rfl⟩
+  · have ho : (⟨"y", none, none, none, true, 8, .uint32⟩ : Obj).ok := by simp [Obj.ok, Obj.encOk, Obj.sizeOk]
+    have hr : (⟨"y", none, none, none, true, 8, .uint32⟩ : Obj).inRange (.int 0x77) := by simp [Obj.inRange]
+    exact Comp.KOk.ofKeyFree _ _ (Comp.ofObjValue_ok _ _ ho hr) (Comp.ofObjValue_endOk _ _) (Comp.ofObjValue_keyFree _ _ ho hr)
+
+theorem exNestItems_side : Comps.namesOk (KItems.comps exNestItems) ∧ Comps.eopLast (KItems.comps exNestItems) ∧
+    KItems.refsOk exNestW [] [] exNestItems ∧ KItems.covered exNestItems ∧ KItems.apart exNestItems := by
+  refine ⟨?_, ⟨rfl, rfl, rfl, rfl, trivial⟩, ⟨rfl, by simp [exOuterUser, exK1], rfl, trivial⟩, ?_, ?_⟩
+  · simp [Comps.namesOk, KItems.comps, exNestItems, KItem.toComp, Comp.name, Param.name, Comp.ofObjConst, Obj.toConstParam,
+      Comp.ofObjValue, Obj.toParam, Obj.toKeyParam, PLUser.toParam, exK1, exOuterUser, Comp.kstruct]
+  · intro o v hm
+    simp only [exNestItems, List.mem_cons, List.mem_nil_iff, or_false, reduceCtorEq, false_or, KItem.key.injEq] at hm
+    obtain ⟨rfl, _, _⟩ := hm
+    exact ⟨.user exOuterUser, by simp [exNestItems], _, rfl⟩
+  · simp [KItems.apart, exNestItems, KItem.touches, KItems.touched, exInner, exK1, exK2]
+
+/-- the theorem applies to the nested example -/
+example : ∃ cursor, decodeMessage none (Comps.toParams (KItems.comps exNestItems)) exNestPdu true
+    = .ok (.dict (Comps.pair (KItems.comps exNestItems)).val, cursor) :=
+  C01_roundtrip_lengthkey exNestW exNestItems exNestItems_ok (by decide) exNestItems_side.1 exNestItems_side.2.1
+    exNestItems_side.2.2.2.2 exNestItems_side.2.2.1 exNestItems_side.2.2.2.1 none _ (fun h => by cases h)
     (Except.eq_ok_of_toOption' (by decide +kernel))
 
 end OdxVerif.Codec
